@@ -175,6 +175,32 @@ Theorem C13_fresh_scope_store_refuted :
 Proof. exact store_variant_refuted. Qed.
 Print Assumptions C13_fresh_scope_store_refuted.
 
+(* --- the background refresher (updateTS.doUpdate) is a further writer of the same cell: per scope it performs
+       getTimestamp + setLastTS, i.e. it is one of the n threads of the system (any of them, any number of rounds, any
+       interleaving with the foreground callers): restated here with the roles explicit — whichever threads are
+       refresher rounds, as long as they publish through the CAS loop the cached value never decreases and is a
+       timestamp PD issued; if a refresher round publishes with a plain Store instead, it can go back --- *)
+Theorem C13_refresher : forall (pd : nat -> Z) n es1 es2,
+  let s1 := fold_left (step_rstore pd (fun _ => false)) es1 (init_sys n) in
+  let s2 := fold_left (step_rstore pd (fun _ => false)) es2 s1 in
+  ole (lowres s1) (lowres s2) /\
+  (forall v, lowres s2 = Some v -> exists i, (i < issued s2)%nat /\ v = pd i).
+Proof.
+  intros pd n es1 es2.
+  assert (E : forall es s, fold_left (step_rstore pd (fun _ => false)) es s = run pd s es).
+  { induction es as [|e es IH]; intros s; cbn; auto. rewrite step_rstore_none. apply IH. }
+  cbv zeta. rewrite !E. exact (C13_lastts_monotone pd n es1 es2).
+Qed.
+Print Assumptions C13_refresher.
+
+Theorem C13_refresher_store_refuted :
+  exists (pd : nat -> Z), (forall i j, (i < j)%nat -> pd i < pd j) /\
+  exists n refresher es1 es2 v1 v2,
+    lowres (fold_left (step_rstore pd refresher) es1 (init_sys n)) = Some v1 /\
+    lowres (fold_left (step_rstore pd refresher) (es1 ++ es2) (init_sys n)) = Some v2 /\ v2 < v1.
+Proof. exact rstore_variant_refuted. Qed.
+Print Assumptions C13_refresher_store_refuted.
+
 (* --- the call-level model refines the CAS-level system: running the calls one after the other (each thread gets
        nine scheduler slots) publishes exactly what Model.set_last (publish the maximum) computes, every call returns
        PD's answer, untouched threads stay idle --- *)
